@@ -666,9 +666,20 @@ func (t *ControllableTask) Kill() error {
 		pid          = 0
 		reachedState = "UNKNOWN" // FIXME: should be LAUNCHING or similar
 	)
+	// The control channel may not exist yet (the task is still being started) or may be gone already (the task
+	// terminated and its reaper closed it): work on a snapshot, and without it there is no graceful path.
+	rpc := t.rpc
+	var (
+		response *pb.GetStateReply
+		err      error
+	)
 	cxt, cancel := context.WithTimeout(context.Background(), KILL_TRANSITION_TIMEOUT)
 	defer cancel()
-	response, err := t.rpc.GetState(cxt, &pb.GetStateRequest{}, grpc.EmptyCallOption{})
+	if rpc != nil {
+		response, err = rpc.GetState(cxt, &pb.GetStateRequest{}, grpc.EmptyCallOption{})
+	} else {
+		err = errors.New("no control channel to the task")
+	}
 	if err == nil { // we successfully got the state from the task
 		log.WithField("nativeState", response.GetState()).
 			WithField("taskId", t.ti.GetTaskID()).
@@ -678,7 +689,7 @@ func (t *ControllableTask) Kill() error {
 			Debug("task status queried for upcoming soft kill")
 
 		// NOTE: we acquire the transitioner-dependent STANDBY equivalent state
-		reachedState = t.rpc.FromDeviceState(response.GetState())
+		reachedState = rpc.FromDeviceState(response.GetState())
 
 		nextTransition := func(currentState string) (exc *executorcmd.ExecutorCommand_Transition) {
 			var evt, destination string
@@ -698,7 +709,7 @@ func (t *ControllableTask) Kill() error {
 			}
 
 			exc = executorcmd.NewLocalExecutorCommand_Transition(
-				t.rpc.Transitioner,
+				rpc.Transitioner,
 				t.knownEnvironmentId,
 				[]controlcommands.MesosCommandTarget{
 					{
@@ -791,10 +802,10 @@ func (t *ControllableTask) Kill() error {
 			WithField("taskId", t.ti.GetTaskID()).
 			Warn("cannot query task status for graceful process termination")
 		pid = t.knownPid
-		if pid == 0 {
+		if pid == 0 && rpc != nil && rpc.TaskCmd != nil && rpc.TaskCmd.Process != nil {
 			// The pid was never known through a successful `GetState` in the lifetime
 			// of this process, so we must rely on the PGID of the containing shell
-			pid = -t.rpc.TaskCmd.Process.Pid
+			pid = -rpc.TaskCmd.Process.Pid
 			// When killing the containing shell we must use syscall.Kill with a negative PID, in order to kill all
 			// children which were assigned the same PGID at launch.
 
@@ -809,7 +820,9 @@ func (t *ControllableTask) Kill() error {
 		}
 	}
 
-	_ = t.rpc.Close()
+	if rpc != nil {
+		_ = rpc.Close()
+	}
 	t.rpc = nil
 
 	if reachedState == "DONE" {
